@@ -190,6 +190,18 @@ func c16r1(c *Ctx, id string) {
 			n++
 			o := w.Origin(fs.Store.Val)
 			c.Check(o == "(recv.metric.Rebalance + const(1))", id, "rebalance-count@"+fname(fs.Fn), fs.Store.Pos(), "Rebalance ← Rebalance + 1", "rebalance count ← "+o)
+			// counted where the rebalance takes effect (the reopen armed by the timer), once per run of it — not per
+			// notification: notifications inside one delay window are merged into a single close/reopen
+			sf := streamLifecycle(c, id)
+			skipped := false
+			st := fs.Store
+			allInstrs(fs.Fn, func(in ssa.Instruction) {
+				if _, isRet := in.(*ssa.Return); isRet && existsEntryPathAvoiding(fs.Fn, in, func(x ssa.Instruction) bool { return x == ssa.Instruction(st) }) {
+					skipped = true
+				}
+			})
+			c.Check(fs.Fn == sf.timerFn && !skipped && !cycleBlocks(fs.Fn)[st.Block()], id, "rebalance-count-site", fs.Store.Pos(), "incremented exactly once by every run of the reopen function the timer fires",
+				fmt.Sprintf("rebalance count incremented in %s (on every path: %v); expected once per run of %s, the function that performs the rebalance", fname(fs.Fn), !skipped, fname(sf.timerFn)))
 		}
 		if n != 1 {
 			c.Undecided(id, "rebalance-count", 0, "%d writers of Metric.Rebalance (expected 1)", n)
